@@ -63,6 +63,8 @@ func genConc(r *Rand, n int, tier string, w *bufio.Writer) {
 		var initLine string
 		var pre, post, cfg []string
 		var table []wt
+		storm := false
+		nEv := 0
 		c1 := func(s string) opGen { return func(*Rand) string { return s } }
 		switch comp {
 		case "flushable":
@@ -163,7 +165,7 @@ func genConc(r *Rand, n int, tier string, w *bufio.Writer) {
 			}
 			post = []string{"proc", "avail"}
 		case "buf":
-			nEv := 5 + r.Intn(8)
+			nEv = 5 + r.Intn(8)
 			num, size := 2+r.Intn(4), 30+r.Intn(100)
 			if r.Chance(1, 4) {
 				num, size = 100, 100000
@@ -178,13 +180,30 @@ func genConc(r *Rand, n int, tier string, w *bufio.Writer) {
 				if len(ps) > 0 {
 					p = strings.Join(ps, ",")
 				}
-				cfg = append(cfg, fmt.Sprintf("ev %d s=%d p=%s", e, 5+r.Intn(26), p))
+				// pairwise different sizes: a (count, bytes) pair then identifies one set of entries
+				cfg = append(cfg, fmt.Sprintf("ev %d s=%d p=%s", e, 3*e+2+r.Intn(3), p))
 			}
 			ev := func(r *Rand) int { return 1 + r.Intn(nEv) }
 			table = []wt{
 				{60, func(r *Rand) string { return fmt.Sprintf("push %d", ev(r)) }},
 				{15, func(r *Rand) string { return fmt.Sprintf("isbuf %d", ev(r)) }},
 				{15, c1("total")}, {3, c1("clear")},
+			}
+			if c%4 == 0 {
+				// storm: one writer fills the buffer with orphans (parent 99 never arrives) and clears it,
+				// again and again, while the other goroutines only read Total(); in lockstep every Total
+				// overlaps an Add or a Clear of many single-entry removals
+				nEv = 6 + r.Intn(6)
+				cfg = cfg[:0]
+				for e := 1; e <= nEv; e++ {
+					cfg = append(cfg, fmt.Sprintf("ev %d s=%d p=99", e, 3*e+2+r.Intn(3)))
+				}
+				initLine = "init buf num=100 size=100000 strict=0"
+				storm = true
+				if nThreads > 4 {
+					nThreads = 4
+				}
+				perThread = 30
 			}
 			post = []string{"total"}
 			for e := 1; e <= nEv; e++ {
@@ -198,7 +217,23 @@ func genConc(r *Rand, n int, tier string, w *bufio.Writer) {
 		for _, l := range pre {
 			fmt.Fprintln(w, "pre "+l)
 		}
-		for t := 1; t <= nThreads; t++ {
+		if storm {
+			for i, e := 0, 1; i < perThread; i++ {
+				if e > nEv {
+					fmt.Fprintln(w, "t 1 clear")
+					e = 1
+				} else {
+					fmt.Fprintf(w, "t 1 push %d\n", e)
+					e++
+				}
+			}
+			for t := 2; t <= nThreads; t++ {
+				for i := 0; i < perThread; i++ {
+					fmt.Fprintf(w, "t %d total\n", t)
+				}
+			}
+		}
+		for t := 1; t <= nThreads && !storm; t++ {
 			for i := 0; i < perThread; i++ {
 				y := ""
 				if r.Chance(1, 4) {
@@ -210,7 +245,7 @@ func genConc(r *Rand, n int, tier string, w *bufio.Writer) {
 		for _, l := range post {
 			fmt.Fprintln(w, "post "+l)
 		}
-		if r.Chance(2, 3) {
+		if storm || r.Chance(2, 3) {
 			fmt.Fprintln(w, "run lockstep")
 		} else {
 			fmt.Fprintln(w, "run")
